@@ -8,6 +8,7 @@ MODULE = "Poupool.Properties.C08"
 
 def run(chk):
     ac.run_actor_property(chk, MODULE, THEOREMS, monitor_pids=["C08"], extra=globals().get("extra"))
+    ac.responsiveness(chk, ['Filtration', 'Tank', 'Heating', 'Disinfection', 'Swim', 'Arduino'])
     from checks import altcfg as _alt
     _alt.binding(chk, None)
     _alt.explore(chk, [chk.pid])
